@@ -88,6 +88,66 @@ mod probe {
 use probe::{NotSend, NotSync};
 "#;
 
+
+// ---------------------------------------------------------------------------------------------
+// Second family: engine B's definitions. Every typed addition of every definition is, in turn,
+// replaced by a field of a restricted kind; all the other fields are Send + Sync (vtypes).
+// One rustc run per case asserts the expected answer for every record type and both traits; only
+// when that run is rejected are the questions asked one by one.
+// ---------------------------------------------------------------------------------------------
+
+const FAMILY_KINDS: [&str; 8] = ["SendOnly", "SyncOnly", "Neither", "RawPtr", "BothCopy?", "SendOnlyCopy?", "SyncOnlyCopy?", "NeitherCopy?"];
+
+struct FamOutcome {
+    expect: Vec<(bool, bool)>,
+    observed: Vec<(bool, bool)>,
+}
+
+fn family_case(ext: &Externs, dir: &std::path::Path, i: usize, spec: &defgen::DefSpec, slot: usize, kind: &Kind) -> Result<FamOutcome, String> {
+    let subject = std::cell::Cell::new(None);
+    let add = |b: &mut defgen::Builder, name: &str, _t: usize, _uninit: bool| {
+        let id = (kind.add)(b, name);
+        subject.set(Some(id));
+        Ok(id)
+    };
+    let built = std::panic::catch_unwind(std::panic::AssertUnwindSafe(|| defgen::build_with(spec, Some(&defgen::Subject { slot, add: &add })))).map_err(|e| format!("builder panicked: {}", vcommon::panic_message(&e)))?;
+    let id = subject.get().ok_or("the subject was never added")?;
+    let expect: Vec<(bool, bool)> = built
+        .def
+        .variants()
+        .map(|v| if v.data().any(|d| d == id) { (kind.send, kind.sync) } else { (true, true) })
+        .collect();
+    let code = std::panic::catch_unwind(std::panic::AssertUnwindSafe(|| generate(&built.def, &GeneratorConfig::default()))).map_err(|e| format!("generate panicked: {}", vcommon::panic_message(&e)))?;
+    let externs = ["truc_runtime", "static_assertions", "usertypes", "vtypes"];
+    let ask = |file: String, body: String| -> Result<bool, String> {
+        let path = dir.join(file);
+        std::fs::write(&path, format!("{}pub mod m {{\n{}\n}}\n{}\n{}", PRELUDE, code, PROBE, body)).unwrap();
+        let r = rustc(ext, &path, &externs, None);
+        let _ = std::fs::remove_file(&path);
+        if r.ok {
+            Ok(true)
+        } else if r.stderr.contains("assert") || r.stderr.contains("evaluation") {
+            Ok(false)
+        } else {
+            Err(r.stderr.lines().filter(|l| l.starts_with("error")).take(3).collect::<Vec<_>>().join(" | "))
+        }
+    };
+    let mut all = String::new();
+    for (v, e) in expect.iter().enumerate() {
+        all.push_str(&format!("const _: () = assert!(<probe::P<m::Record{}>>::SEND == {});\nconst _: () = assert!(<probe::P<m::Record{}>>::SYNC == {});\n", v, e.0, v, e.1));
+    }
+    if ask(format!("fam{}.rs", i), all)? {
+        return Ok(FamOutcome { observed: expect.clone(), expect });
+    }
+    let mut observed = vec![];
+    for v in 0..expect.len() {
+        let send = ask(format!("fam{}_{}_s.rs", i, v), format!("const _: () = assert!(<probe::P<m::Record{}>>::SEND);\n", v))?;
+        let sync = ask(format!("fam{}_{}_y.rs", i, v), format!("const _: () = assert!(<probe::P<m::Record{}>>::SYNC);\n", v))?;
+        observed.push((send, sync));
+    }
+    Ok(FamOutcome { expect, observed })
+}
+
 pub fn main(args: &Args, ext: &Externs) -> i32 {
     let t0 = std::time::Instant::now();
     let ks = kinds();
@@ -101,6 +161,25 @@ pub fn main(args: &Args, ext: &Externs) -> i32 {
         let d = vcommon::read_replay(p);
         let (k, s) = (d["case"]["field_kind"].as_str().unwrap_or("").to_owned(), d["case"]["shape"].as_str().unwrap_or("").to_owned());
         cases.retain(|c| ks[c.0].name == k && format!("{:?}", c.1) == s);
+    }
+    let fam_defs = if args.tier == vcommon::Tier::Thorough { defgen::family("quick") } else { defgen::zoo() };
+    let mut fam_cases: Vec<(usize, usize, usize)> = vec![];
+    for (d, spec) in fam_defs.iter().enumerate() {
+        for slot in 0..spec.slots() {
+            for name in FAMILY_KINDS {
+                fam_cases.push((d, slot, ks.iter().position(|k| k.name == name).expect("kind")));
+            }
+        }
+    }
+    if let Some(p) = &args.replay {
+        let d = vcommon::read_replay(p);
+        if d["case"]["space"] == "c14-family" {
+            cases.clear();
+            let (name, slot, kind) = (d["case"]["definition"].as_str().unwrap_or("").to_owned(), d["case"]["slot"].as_u64().unwrap_or(u64::MAX) as usize, d["case"]["field_kind"].as_str().unwrap_or("").to_owned());
+            fam_cases.retain(|c| fam_defs[c.0].name == name && c.1 == slot && ks[c.2].name == kind);
+        } else {
+            fam_cases.clear();
+        }
     }
     let dir = crate::work_dir("C14");
     // per case: for each record and each trait, what the record is (decided by the compiler)
@@ -243,6 +322,47 @@ pub fn main(args: &Args, ext: &Externs) -> i32 {
             }
         }
     }
+    // ---- the family sweep ----
+    let fam_results = crate::parallel(fam_cases.len(), |i| {
+        let (d, slot, k) = fam_cases[i];
+        family_case(ext, &dir, i, &fam_defs[d], slot, &ks[k])
+    });
+    let (mut fam_n, mut fam_nontrivial) = (0u64, 0u64);
+    for ((d, slot, k), r) in fam_cases.iter().zip(fam_results.iter()) {
+        let (spec, kind) = (&fam_defs[*d], &ks[*k]);
+        let case = json!({"space": "c14-family", "definition": spec.name, "history": spec.describe(), "slot": slot, "field_kind": kind.name, "field_is": {"Send": kind.send, "Sync": kind.sync}});
+        match r {
+            Err(e) => vcommon::machinery_error(&format!("C14 family probe does not compile for an unrelated reason ({} slot {} {}): {}", spec.name, slot, kind.name, e)),
+            Ok(o) => {
+                for (v, (e, g)) in o.expect.iter().zip(o.observed.iter()).enumerate() {
+                    for (tname, want, got) in [("Send", e.0, g.0), ("Sync", e.1, g.1)] {
+                        fam_n += 1;
+                        if !want {
+                            fam_nontrivial += 1;
+                        }
+                        if got && !want {
+                            report.add(Violation::new(
+                                format!("C14/only-if/{}/field={}", tname, kind.name),
+                                format!("{} ({}) with addition #{} replaced by a usertypes::{} field (not {}): Record{} holds it and is {}", spec.name, spec.describe(), slot, kind.name, tname, v, tname),
+                                case.clone(),
+                            ));
+                        } else if !got && want {
+                            report.add(Violation::new(
+                                format!("C14/if/{}/field={}", tname, kind.name),
+                                format!("{} ({}) with addition #{} replaced by a usertypes::{} field: all fields of Record{} are {} but the record is not", spec.name, spec.describe(), slot, kind.name, v, tname),
+                                case.clone(),
+                            ));
+                        }
+                    }
+                }
+            }
+        }
+    }
+    n += fam_n;
+    nontrivial += fam_nontrivial;
+    // one violation per key (the hand-written shapes come first)
+    let mut seen = std::collections::BTreeSet::new();
+    report.violations.retain(|v| seen.insert(v.key.clone()));
     if args.replay.is_some() {
         let known = vcommon::KnownFindings::load();
         let mut bad = 0;
@@ -262,6 +382,7 @@ pub fn main(args: &Args, ext: &Externs) -> i32 {
         .cov("rule", "every field kind of {Send+Sync, Send-only (Cell, wrapped Cell), Sync-only, neither (Rc, wrapped Rc), raw pointer; and Copy types of each of the four classes, added as ordinary data and (name ending in '?') as data that may stay uninitialised} x {only in the first variant, only in a later variant, in both, alone, two data of the type with one removed, both removed and one added back, next to another restricted type and removed} -> for every generated RecordK and each of Send / Sync the compiler decides (inherent-const-over-blanket-trait probe, rustc --emit=metadata) whether the record implements the trait; it must equal the conjunction over that variant's fields. evaluations = (record, trait) questions; non-trivial = questions whose expected answer is 'no'")
         .cov("samples", samples)
         .cov("exhaustive", true)
+        .cov("second_family", json!({"rule": "every typed addition of every definition of engine B's family (quick: the zoo; thorough: engine B's quick family) is in turn replaced by a field of each kind of {Send-only, Sync-only, neither, raw pointer, and the four Copy classes added as may-stay-uninitialised}; all other fields are Send + Sync; one rustc run asserts the expected answer for every record type and both traits", "definitions": fam_defs.len(), "cases": fam_cases.len(), "questions": fam_n, "questions_expecting_no": fam_nontrivial}))
         .cov("field_kinds", ks.iter().map(|k| json!([k.name, k.send, k.sync])).collect::<Vec<_>>());
     report.assume("the 'schedules' quantifier is discharged at type level: if no record is Send/Sync unless its fields are, safe code cannot build the racing schedule; no interleaving is explored");
     report.finish()
